@@ -890,6 +890,20 @@ bus_client_policy_append_rule (BusClientPolicy *policy,
   return TRUE;
 }
 
+
+/* Only method returns and errors are replies; the requested_reply
+ * attribute is ignored for other message types, even if they carry a
+ * REPLY_SERIAL header field. */
+static dbus_bool_t
+message_is_reply (DBusMessage *message)
+{
+  int type = dbus_message_get_type (message);
+
+  return (type == DBUS_MESSAGE_TYPE_METHOD_RETURN ||
+          type == DBUS_MESSAGE_TYPE_ERROR) &&
+         dbus_message_get_reply_serial (message) != 0;
+}
+
 dbus_bool_t
 bus_client_policy_check_can_send (BusClientPolicy *policy,
                                   BusRegistry     *registry,
@@ -938,7 +952,7 @@ bus_client_policy_check_can_send (BusClientPolicy *policy,
         }
 
       /* If it's a reply, the requested_reply flag kicks in */
-      if (dbus_message_get_reply_serial (message) != 0)
+      if (message_is_reply (message))
         {
           /* for allow, requested_reply=true means the rule applies
            * only when reply was requested. requested_reply=false means
@@ -1214,7 +1228,7 @@ bus_client_policy_check_can_receive (BusClientPolicy *policy,
         }
 
       /* If it's a reply, the requested_reply flag kicks in */
-      if (dbus_message_get_reply_serial (message) != 0)
+      if (message_is_reply (message))
         {
           /* for allow, requested_reply=true means the rule applies
            * only when reply was requested. requested_reply=false means
